@@ -18,3 +18,7 @@ Proof. exact C10_cached_no_codegen. Qed.
 Print Assumptions C10_cached_key_generates_nothing.
 (* the cache key of the model is (operator, key tuples) only: coefficient values and types do not
    occur in it; that the implementation's key has this shape is checked by the correspondence *)
+
+(* ---- source pins: the functions whose hand-written model carries the theorems above are still, textually (after
+   ast normalisation), the functions the model was validated against; an edit breaks Bridge/Pins_C10.v ---- *)
+From KV Require Bridge.Pins_C10.
